@@ -11,7 +11,8 @@ What the derive macro does with a declaration is mirrored here and nowhere else:
     of the macro (variants): fields are skipped and listed, variants fail the translation;
   * `Vec<T>` is repeated and `Option<T>` optional for every field type, except that `Vec<u8>` /
     `&[u8]` / `[u8; N]` / `String` / `&str` / `PathBuf` are the native values of the bytes / string
-    field types; `Box<T>` is T;
+    field types; `Box<T>` is T; a PathBuf under `string` is the scalar StringPath (it packs the path's
+    OS bytes, which need not be UTF-8, and unpacks through string::unpack);
   * `message` fields take their shape from the (last path segment of the) Rust type;
     `Result<T, E>` is the Result shape.
 Types the shape language cannot express (generic parameters, types that contain themselves,
@@ -32,7 +33,9 @@ OUT_DIR = os.environ.get("BLUE_SHAPES_OUT") or os.path.normpath(os.path.join(os.
 SCALARS = {"int32": "Int32", "int64": "Int64", "uint32": "UInt32", "uint64": "UInt64", "sint32": "SInt32",
            "sint64": "SInt64", "fixed32": "Fixed32", "fixed64": "Fixed64", "sfixed32": "SFixed32",
            "sfixed64": "SFixed64", "float": "Float", "double": "Double", "Bool": "Bool_", "bytes": "Bytes",
-           "bytes16": "Bytes16", "bytes32": "Bytes32", "bytes64": "Bytes64", "string": "String_"}
+           "bytes16": "Bytes16", "bytes32": "Bytes32", "bytes64": "Bytes64", "string": "String_",
+           # not a field type of prototk: `string` whose native type is PathBuf (its bytes need not be UTF-8)
+           "string_path": "StringPath"}
 SKIP_DIRS = {"target", ".git", "node_modules"}
 
 
@@ -183,6 +186,7 @@ def outer_generic(t, name):
     return m.group(1) if m else None
 
 
+PATHBUF = re.compile(r"(std::path::)?PathBuf$")
 BYTES_NATIVE = re.compile(r"(Vec<u8>|&('[a-z_]+)?\[u8\]|\[u8;[0-9]+\]|String|&('[a-z_]+)?str|(std::path::)?PathBuf|Box<\[u8\]>)$")
 
 
@@ -196,16 +200,21 @@ def field_shape(rust_ty, ptype, where):
             t = inner
             continue
         break
-    if ptype in SCALARS:
+    if ptype in SCALARS and ptype != "string_path":
+        def kind(native):
+            # PathBuf under `string` packs the path's OS bytes but unpacks through string::unpack
+            return "string_path" if ptype == "string" and PATHBUF.match(native) else ptype
         if ptype in ("bytes", "bytes16", "bytes32", "bytes64", "string") and BYTES_NATIVE.match(t):
-            return "CPlain", ("sc", ptype)
+            return "CPlain", ("sc", kind(t))
         for gen, c in (("Vec", "CRep"), ("Option", "COpt")):
             inner = outer_generic(t, gen)
             if inner is not None:
                 if outer_generic(inner, "Vec") is not None and not BYTES_NATIVE.match(inner) or outer_generic(inner, "Option") is not None:
                     raise ParseError("%s: nested container %s" % (where, rust_ty))
-                return c, ("sc", ptype)
-        return "CPlain", ("sc", ptype)
+                while outer_generic(inner, "Box") is not None and outer_generic(inner, "Box") != "[u8]":
+                    inner = outer_generic(inner, "Box")
+                return c, ("sc", kind(inner))
+        return "CPlain", ("sc", kind(t))
     if ptype != "message":
         raise ParseError("%s: unknown field type `%s`" % (where, ptype))
     for gen, c in (("Vec", "CRep"), ("Option", "COpt")):
